@@ -1,6 +1,7 @@
 package exec
 
 import (
+	"os"
 	"go/types"
 	"fmt"
 	"runtime/debug"
@@ -82,11 +83,15 @@ type Solvers struct {
 func RunInstance(prog *Program, inst *Instance, sv Solvers) (res *InstanceResult) {
 	inst.defaults()
 	t0 := time.Now()
-	res = &InstanceResult{Instance: inst, CoverHit: map[string]bool{}, CoverSeen: map[string]bool{}, Funcs: map[string]int{}}
+	res = &InstanceResult{Instance: inst, CoverHit: map[string]bool{}, CoverSeen: map[string]bool{}, Funcs: map[string]int{}, AbortReasons: map[string]int{}}
 	res.sem = make(chan struct{}, 64)
+	res.keepScripts = os.Getenv("VP_DUMP") != ""
 	st := &State{prog: prog, b: term.NewB(), inst: inst, res: res, pool: sv.Pool,
-		sizeMemo: map[types.Type]int{}, globals: map[*ssa.Global]*Object{}, lockOwner: map[*Object]int{}, redirect: map[string]*ssa.Function{}}
+		sizeMemo: map[types.Type]int{}, subst: map[*term.Node]*term.Node{}, globals: map[*ssa.Global]*Object{}, lockOwner: map[*Object]int{}, redirect: map[string]*ssa.Function{}}
 	st.stepLimit = inst.StepLimit
+	if inst.TimeLimit > 0 {
+		st.deadline = time.Now().Add(inst.TimeLimit)
+	}
 	defer func() {
 		if r := recover(); r != nil {
 			switch e := r.(type) {
@@ -221,6 +226,7 @@ func (st *State) explore() {
 		}
 		st.cur = st.gByID(cp.curID)
 		st.pc = cp.pc
+		st.rebuildSubst()
 		st.mapDesc = cp.mapDesc
 		st.lockOwner = map[*Object]int{}
 		for k, v := range cp.lockOwner {
